@@ -37,7 +37,7 @@ TIMEOUT = {'quick': 900, 'thorough': 3600}
 FLOORS = {'accepted_and_drained': 50, 'illformed_submissions': 100, 'wellformed_with_dependencies': 50}
 
 MUTATIONS = ['none', 'none', 'self-parent', 'later-parent', 'missing-parent', 'parent-in-uncommitted-update', 'duplicate-parent', 'parent-id-zero',
-             'job-ids-outside-range', 'jobs-missing-head', 'jobs-missing-head', 'jobs-missing-tail', 'none']
+             'job-ids-outside-range', 'jobs-missing-head', 'jobs-missing-head', 'jobs-missing-tail', 'fractional-parent-id', 'none']
 
 
 def gen_jobs(rng, n, n_prior):
@@ -85,6 +85,12 @@ def mutate(rng, jobs, kind, n_prior, foreign_ids):
         for x in jobs:
             x['job_id'] += shift
         return jobs, kind
+    elif kind == 'fractional-parent-id':
+        # a dependency must name a job: a JSON number that is not an integer names none (whatever the column type makes of it)
+        if t == 0:
+            return jobs, None
+        frac = rng.choice([0.75, 0.5, 0.25, 0.999])
+        j.setdefault('in_update_parent_ids', []).append(j['job_id'] - 1 + frac)
     elif kind in ('jobs-missing-head', 'jobs-missing-tail'):
         # fewer jobs than the update reserved: the head (ids 1..k absent, the highest id present) or the tail is never sent.
         # The reserved count stays n, so the batch could never reach n completed jobs; jobs naming an absent id can never run.
